@@ -304,6 +304,39 @@ class StreamDependsOnUse(Exception):
     pass
 
 
+def scale_case(tmp, n, b, seed):
+    import torch
+    from xformer import data as _xd
+
+    path = os.path.join(tmp, "big%d.pt" % n)
+    if not os.path.exists(path):
+        torch.save({"ids": torch.arange(n, dtype=torch.int64)}, path)
+    ds = _xd.Dataset(path, batch_size=b, seed=seed)
+    sizes, parts = [], []
+    for bt in ds:
+        sizes.append(int(bt.data["ids"].shape[0]))
+        parts.append(bt.data["ids"])
+    out = driver.run_lines(["dataset sizes %d %d %s" % (n, b, " ".join(map(str, sizes)))])[0]
+    keys, what = [], ""
+    if out != "ok":
+        bad = [(k, z) for k, z in enumerate(sizes[:-1]) if z != b][:3]
+        keys.append("batch-size")
+        what = "%d batches for %d rows / batch_size %d; batches before the last that are not full (index, size): %s" % (len(sizes), n, b, bad)
+    allrows = torch.cat(parts) if parts else torch.zeros(0, dtype=torch.int64)
+    if allrows.shape[0] != n or not bool((torch.sort(allrows).values == torch.arange(n)).all()):
+        keys.append("row-lost-or-duplicated")
+        what = what or "an epoch of %d stored rows yields %d rows, not each stored row once" % (n, int(allrows.shape[0]))
+    return {"n": n, "b": b, "seed": seed, "keys": keys, "what": what}
+
+
+def scale_cases(ctx, tmp):
+    rng = ctx.rng
+    out = []
+    for n, b in ([(9_000_000, rng.choice([100_003, 65_537, 250_000]))] + ([(17_000_001, 1_000_000), (9_000_000, 4096)] if ctx.thorough else [])):
+        out.append(scale_case(tmp, n, b, rng.randrange(1 << 30)))
+    return out
+
+
 def run_interleaved(ds, ops):
     """several iterators over ONE dataset object, advanced in the given interleaving (`mk`: iter(ds);
     `n<j>`: next(it_j); `f<n>`: fastforward_epochs(n); `c<j>`: iterator j is given up).  Returns
@@ -568,6 +601,18 @@ def tie(ctx):
         if meta:
             ctx.sample({k: meta[0][k] for k in ("fields", "b", "batches", "seed", "perms")})
 
+        # --- scale probe: a file of more than 64 MiB (one int64 field of 9 million rows) — staging
+        # buffers, chunked gathers and 32-bit offsets do not show on small files.  The batch lengths
+        # are judged by the driver (`sizesOK`, C20_batch_lengths); that the rows are exactly the
+        # stored ones is a sort-and-compare here.
+        for sc in scale_cases(ctx, tmp):
+            ctx.evaluated()
+            ctx.count("file:scale-probe")
+            if sc["keys"]:
+                divs.append(Divergence("impl.scale", {"kind": "file-scale", "check": sc["keys"][0], "rows": sc["n"], "b": sc["b"], "seed": sc["seed"]}, sc["what"], "ceil(n/b) batches, only the last shorter; every stored row exactly once"))
+            else:
+                ctx.nontrivial("scale|%d|%d" % (sc["n"], sc["b"]))
+
         # --- replay buffer
         from tak.alphazero import data as rbdata
 
@@ -655,6 +700,8 @@ def explain(d):
     inp = d.input
     if d.component in DIRECT:
         return [DIRECT[d.component]]
+    if d.component == "impl.scale":
+        return [inp["check"]]
     if d.component == "oracle.randperm":
         return ["randperm-not-a-permutation"]
     if inp.get("kind") == "file" and "impl_epochs" in inp:
@@ -732,6 +779,13 @@ def table_from_text(text):
 def replay(ctx, data):
     r = data.get("replay", data)
     vs = []
+    if r.get("kind") == "file-scale":
+        tmp = tempfile.mkdtemp(prefix="c20r-")
+        try:
+            sc = scale_case(tmp, r["rows"], r["b"], r["seed"])
+        finally:
+            shutil.rmtree(tmp, ignore_errors=True)
+        return [Violation(k, sc["what"], r) for k in sc["keys"][:1]]
     if r.get("kind") == "file":
         tmp = tempfile.mkdtemp(prefix="c20r-")
         try:
